@@ -477,10 +477,18 @@ def run(ctx: Ctx) -> None:
         jobs = jobs_for(cases, lambda k: [("dict", "file_array")[k % 2]], lambda k: [("ndarray", "list")[(k // 2) % 2]], keep=40,
                         every_single=False)
     else:
+        # thorough: A. the rich universe, every axis of size 2, every view; B. the basic universe with all sizes 1..2 and
+        # C. with size 3 (views as in quick); each with one storage / container kind per case, alternating
         check_same_universe(ctx)
-        cases = export_universe(ctx, minsize=1, maxsize=2, rich=True, nshards=12, par=4)
-        cases += export_universe(ctx, minsize=3, maxsize=3, rich=False, nshards=4, par=4)
-        jobs = jobs_for(cases, lambda k: ["dict", "file_array"], lambda k: [("ndarray", "list")[k % 2]], keep=40)
+        cases = export_universe(ctx, minsize=2, maxsize=2, rich=True, nshards=8, par=4)
+        jobs = jobs_for(cases, lambda k: [("dict", "file_array")[k % 2]], lambda k: [("ndarray", "list")[(k // 2) % 2]], keep=40)
+        more = export_universe(ctx, minsize=1, maxsize=2, rich=False, nshards=8, par=4)
+        more += export_universe(ctx, minsize=3, maxsize=3, rich=False, nshards=2, par=2)
+        jobs += jobs_for(more, lambda k: [("file_array", "dict")[k % 2]], lambda k: [("list", "ndarray")[(k // 2) % 2]],
+                         every_single=False)
+        for n, j in enumerate(jobs):
+            j["k"] = n
+        cases += more
     for c in cases:
         if c["order"] != sorted(c["order"]):
             raise MachineryError("universe name order is not alphabetical")
@@ -501,7 +509,7 @@ def run(ctx: Ctx) -> None:
     selftest(ctx, jobs, results)
 
     # seeded random pipelines through the same model (Mode = "file")
-    items = random_items(rng, 60 if quick else 2500)
+    items = random_items(rng, 60 if quick else 1500)
     exported = export_file_cases(ctx, [{k: v for k, v in it.items() if not k.startswith("_")} for it in items], "random",
                                  chunk=60 if quick else 250, par=2 if quick else 4)
     rjobs = []
